@@ -18,10 +18,13 @@ Shared == World = "shared"
 \* shared: s5 and s6 hold the same object @item = { // {allOf: "@base"} "id": 1 }; only s6 was given @base, so s5 fails to compile
 \* shared2: s7 = @A and s8 = {} // {allOf: ["@A", "@B"]} hold the same objects @A = {"a": 1} (and s8 also @B = {"b": 2}): the parents of an allOf
 Shared2 == World = "shared2"
-Schemas == IF Shared THEN {"s5", "s6"} ELSE IF Shared2 THEN {"s7", "s8"} ELSE {"s1", "s2", "s3", "s4"}
+\* shared3: s9 = {"x": @t} built with KeysAreOptionalByDefault and s10 = @t built without it hold the same object @t = {"id": 1}: an option of a
+\* root is an input of that root only, the type object does not carry it from one root to the other
+Shared3 == World = "shared3"
+Schemas == IF Shared THEN {"s5", "s6"} ELSE IF Shared2 THEN {"s7", "s8"} ELSE IF Shared3 THEN {"s9", "s10"} ELSE {"s1", "s2", "s3", "s4"}
 \* built anew for every validate. main: accepted / two rejected (complementary missing keys) / malformed; shared: inherited key missing / present
-FreshDocs == IF Shared THEN {"d5", "d6"} ELSE IF Shared2 THEN {"d7", "d8"} ELSE {"d1", "d2", "d3", "d4"}
-Docs == IF Shared \/ Shared2 THEN {} ELSE {"x1", "x2", "x3"}      \* persistent Document objects: valid / malformed / valid + trailing garbage
+FreshDocs == IF Shared THEN {"d5", "d6"} ELSE IF Shared2 THEN {"d7", "d8"} ELSE IF Shared3 THEN {"d9", "d10"} ELSE {"d1", "d2", "d3", "d4"}
+Docs == IF Shared \/ Shared2 \/ Shared3 THEN {} ELSE {"x1", "x2", "x3"}      \* persistent Document objects: valid / malformed / valid + trailing garbage
 SchemaOps == {"check", "len", "example", "getast", "used"}
 \* World "docs": only the persistent documents (cursor discipline of Check / Len / NextLexeme / Validate), so that longer histories fit
 DocsOnly == World = "docs"
@@ -29,8 +32,8 @@ Ops == (IF DocsOnly THEN {} ELSE {[op |-> o, obj |-> s, arg |-> ""] : o \in Sche
   \cup (IF DocsOnly THEN {} ELSE {[op |-> "validate", obj |-> s, arg |-> d] : s \in Schemas, d \in FreshDocs})
   \cup {[op |-> o, obj |-> x, arg |-> ""] : o \in {"dcheck", "dlen", "dnext", "ddrain"}, x \in Docs}
   \cup {[op |-> "dvalidate", obj |-> "s1", arg |-> x] : x \in Docs}
-  \cup (IF Shared \/ Shared2 \/ DocsOnly THEN {} ELSE {[op |-> o, obj |-> "e1", arg |-> ""] : o \in {"echeck", "evalues", "east", "elen"}})
-  \cup (IF Shared \/ Shared2 \/ DocsOnly THEN {} ELSE {[op |-> o, obj |-> "r1", arg |-> ""] : o \in {"rpattern", "rexample", "rlen"}})
+  \cup (IF Shared \/ Shared2 \/ Shared3 \/ DocsOnly THEN {} ELSE {[op |-> o, obj |-> "e1", arg |-> ""] : o \in {"echeck", "evalues", "east", "elen"}})
+  \cup (IF Shared \/ Shared2 \/ Shared3 \/ DocsOnly THEN {} ELSE {[op |-> o, obj |-> "r1", arg |-> ""] : o \in {"rpattern", "rexample", "rlen"}})
 
 \* cursor[x] : number of lexemes already delivered by NextLexeme, or -1 when the position is undefined
 \* once[o]   : which once-caches of object o are filled (I layer bookkeeping)
